@@ -33,8 +33,8 @@
 //        (one internal name at a time on every user-chosen position, then all at once) + the valid grammars of the family.
 //        Validation: the family + every single renaming `identifier j := identifier i` and every first-letter case flip in 8 base files (about 2 000 files with
 //        0..4 simultaneous violations).
-//        LALR: the well-formed files of the family, of the enumeration (right-hand sides <= 1: all; <= 2: 1 in 97, thorough 1 in 7) and 10 textbook grammars
-//        (LALR-not-SLR, LR(1)-not-LALR, dangling else, expression grammars, nullable chains) + 1 200 pseudo-random files (6 000 thorough) over 2..4
+//        LALR: the well-formed files of the family, of the enumeration (right-hand sides <= 1: all; <= 2: 1 in 97, thorough 1 in 7) and 12 textbook grammars
+//        (LALR-not-SLR, LR(1)-not-LALR, dangling else, expression grammars, nullable chains) + 2 500 pseudo-random files (12 000 thorough) over 2..4
 //        nonterminals and 1..3 terminals with right-hand sides of 0..3 symbols (fixed LCG seeded with VERIF_SEED); the ill-formed ones are skipped.
 //        Emitted types: the accepted files of the family + 9 payload type expressions (unit, paths, generics nested <= 3) on 3 use sites + 8 attribute
 //        texts (non-ASCII, the three bracket kinds nested, 300 deep, quotes) on struct / enum / terminal declarations, 0..3 per declaration.
@@ -1309,6 +1309,8 @@ mod __vx_leafcheck {
         "start S struct S ( A B A ) enum A { N0 Y0 ( $A ) } enum B { N1 Y1 ( $B ) } terminal T { $A : ( ) $B : ( ) }",
         "start S enum S { A ( S $A ) B ( $A S ) C } terminal T { $A : ( ) }",
         "start S enum S { P ( $P X ) Q ( $Q X ) R ( $Q Y ) } struct X ( $A $B ) struct Y ( $A $C ) terminal T { $P : ( ) $Q : ( ) $A : ( ) $B : ( ) $C : ( ) }",
+        "start S struct S { first : B rest : Wrap } struct B ( $Bee ) struct Wrap { inner : Opt } enum Opt { None0 Some0 ( $Cee ) } terminal T { $Bee : ( ) $Cee : ( ) }",
+        "start S struct S { a : A b : B _ : $X c : C } struct A { _ : O p : O } struct B ( O _ : O ) struct C { q : O } enum O { N Y { y : $Y } } terminal T { $X : ( ) $Y : ( ) }",
         "start L enum L { One ( I ) More ( L $Comma I ) } enum I { Id ( $Id ) Call ( $Id $L Args $R ) } enum Args { None0 Some0 ( L ) } terminal T { $Comma : ( ) $Id : ( ) $L : ( ) $R : ( ) }",
     ];
     fn lalr_family() -> Vec<Vec<String>> {
@@ -1318,10 +1320,10 @@ mod __vx_leafcheck {
         fam.extend(SHAPES.iter().map(|s| instantiate(s, &du, &dl)));
         fam.extend(enumerated(1, 1));
         fam.extend(enumerated(2, if thorough() { 7 } else { 97 }));
-        fam.extend(random_grammars(if thorough() { 6000 } else { 1200 }));
+        fam.extend(random_grammars(if thorough() { 12000 } else { 2500 }));
         fam.iter().map(|c| tokens(c)).collect()
     }
-    /// pseudo-random files over nonterminals N0..N3 (any of them the start symbol; struct or enum of 0..3 variants; right-hand sides of 0..3 symbols, biased
+    /// pseudo-random files over nonterminals N0..N3 (any of them the start symbol; struct or enum of 0..3 variants; right-hand sides of 0..3 symbols as tuple or named fieldsets with used and `_` fields, biased
     /// towards short and nullable ones) and terminals $A..$C; the generator is a fixed LCG seeded with VERIF_SEED (default 1)
     fn random_grammars(count: usize) -> Vec<String> {
         let mut x: u64 = std::env::var("VERIF_SEED").ok().and_then(|s| s.parse::<u64>().ok()).unwrap_or(1).wrapping_mul(0x9E37_79B9_7F4A_7C15) | 1;
@@ -1334,7 +1336,14 @@ mod __vx_leafcheck {
                 let len = [0, 1, 1, 2, 2, 3][next(6) as usize];
                 if len == 0 { return String::new(); }
                 let syms: Vec<String> = (0..len).map(|_| { let k = next((n_nt + n_t) as u64) as usize; if k < n_nt { format!("N{}", k) } else { format!("${}", ["A", "B", "C"][k - n_nt]) } }).collect();
-                format!("( {} )", syms.join(" "))
+                // tuple or named fieldset, every field used or skipped (`_`): the production is the same
+                if next(2) == 0 {
+                    let fields: Vec<String> = syms.iter().map(|s| if next(4) == 0 { format!("_ : {}", s) } else { s.clone() }).collect();
+                    format!("( {} )", fields.join(" "))
+                } else {
+                    let fields: Vec<String> = syms.iter().enumerate().map(|(k, s)| if next(4) == 0 { format!("_ : {}", s) } else { format!("f{} : {}", k, s) }).collect();
+                    format!("{{ {} }}", fields.join(" "))
+                }
             };
             // the start symbol is any of the nonterminals, not necessarily the first one declared
             let mut text = format!("start N{}", next(n_nt as u64));
@@ -1517,6 +1526,9 @@ mod __vx_leafcheck {
                     let e = &arow[col];
                     let want: Option<Act> = dem[r].get(&la).and_then(|a| a.iter().next().cloned());
                     let la_name = if la == g.terms.len() { "end of input".to_string() } else { format!("${}", g.terms[la]) };
+                    if dem[r].get(&la).map_or(0, |a| a.len()) > 1 {
+                        fail(format!("a table for a grammar whose LALR(1) automaton demands {:?} in one cell (state S{}, {})", dem[r][&la], s, la_name), "no table: reduce entries exactly on the lookahead sets cannot hold here".to_string());
+                    }
                     let kind = ["Shift", "Reduce", "Accept", "Err"].iter().find(|k| e.iter().any(|t| t == *k)).cloned();
                     match (kind, want) {
                         (Some("Shift"), Some(Act::Shift)) => { let Some(to) = trailing_number(e, 'S') else { unreadable("a shift entry") }; link(to, trans.get(&(r, Sy::T(la))).cloned(), format!("shift on {}", la_name), &mut to_ref, &mut work); }
